@@ -86,14 +86,14 @@ static ddpint execute_process(ddpstring *path, ddpstringlist *args,
 	char *argv;
 	size_t argv_size = ddp_strlen(path) + 1;
 	for (ddpint i = 0; i < args->len; i++) {
-		argv_size += args->arr[i].cap; // the nullterminator is used for the trailing space
+		argv_size += ddp_strlen(&args->arr[i]) + 1; // + 1 for the trailing space
 	}
 	argv = DDP_ALLOCATE(char, argv_size);
 	argv[0] = '\0'; // make sure strcat works
-	strcat(argv, path->str);
+	strcat(argv, DDP_STRING_CSTR(path));
 	strcat(argv, " ");
 	for (ddpint i = 0; i < args->len; i++) {
-		strcat(argv, args->arr[i].str);
+		strcat(argv, DDP_STRING_CSTR(&args->arr[i]));
 		if (i < args->len - 1) {
 			strcat(argv, " ");
 		}
@@ -109,7 +109,7 @@ static ddpint execute_process(ddpstring *path, ddpstringlist *args,
 
 	// start the actual child process
 	PROCESS_INFORMATION pi;
-	if (!CreateProcessA(path->str, argv, NULL, NULL, true, 0, NULL, NULL, &si, &pi)) {
+	if (!CreateProcessA(DDP_STRING_CSTR(path), argv, NULL, NULL, true, 0, NULL, NULL, &si, &pi)) {
 		ddp_error_win("Fehler beim Erstellen des Unter Prozesses: ");
 		close_pipe(stdout_pipe);
 		if (need_stderr) {
@@ -225,10 +225,10 @@ static ddpint execute_process(ddpstring *path, ddpstringlist *args,
 	char **process_args = DDP_ALLOCATE(char *, argc + 1); // + 1 for the terminating NULL
 
 	process_args[0] = DDP_ALLOCATE(char, ddp_strlen(path) + 1);
-	strcpy(process_args[0], path->str);
+	strcpy(process_args[0], DDP_STRING_CSTR(path));
 	for (int i = 1; i < argc; i++) {
-		process_args[i] = DDP_ALLOCATE(char, strlen(args->arr[i - 1].str) + 1);
-		strcpy(process_args[i], args->arr[i - 1].str);
+		process_args[i] = DDP_ALLOCATE(char, ddp_strlen(&args->arr[i - 1]) + 1);
+		strcpy(process_args[i], DDP_STRING_CSTR(&args->arr[i - 1]));
 	}
 	process_args[argc] = NULL;
 
@@ -246,7 +246,7 @@ static ddpint execute_process(ddpstring *path, ddpstringlist *args,
 		dup2(stdout_fd[WRITE_END], STDOUT_FILENO);
 		dup2(need_stderr ? stderr_fd[WRITE_END] : stdout_fd[WRITE_END], STDERR_FILENO);
 		dup2(stdin_fd[READ_END], STDIN_FILENO);
-		execvp(path->str, process_args);
+		execvp(DDP_STRING_CSTR(path), process_args);
 		fprintf(stderr, "Fehler beim Starten des Unter Prozesses: %s", strerror(errno));
 		exit(COMMAND_NOT_FOUND);
 		return -1;
